@@ -544,6 +544,8 @@ type vAckInst struct {
 	ch  *AofChannel
 	rm  *ReplicationManager
 	adb *ReplicationAckDB
+
+	nconf int
 }
 
 func vAckNewInst() *vAckInst {
@@ -552,7 +554,7 @@ func vAckNewInst() *vAckInst {
 	v.db.aofChannels[0] = ch
 	rm := v.slock.replicationManager
 	adb := rm.GetOrNewAckDB(0)
-	return &vAckInst{v, ch, rm, adb}
+	return &vAckInst{v: v, ch: ch, rm: rm, adb: adb}
 }
 
 // configure: followers / ack mode. The followers LEAVE and JOIN through the real ReplicationManager.removeServerChannel /
@@ -572,6 +574,15 @@ func (in *vAckInst) configure(followers, mode, aofTime int) {
 	}
 	for i := 0; i < followers; i++ {
 		_ = in.rm.addServerChannel(&ReplicationServer{bufferCursor: NewReplicationBufferQueueCursor(make([]byte, 64))})
+	}
+	// every other configuration: the database's ack table is created AFTER the followers have joined (the first require-ack request of a
+	// database arrives when the follower set is already complete): a new table must start with the required count of the current set
+	in.nconf++
+	if in.nconf%2 == 0 {
+		in.rm.glock.Lock()
+		in.rm.ackDbs[0] = nil
+		in.rm.glock.Unlock()
+		in.adb = in.rm.GetOrNewAckDB(0)
 	}
 	in.v.db.aofTime = uint8(aofTime)
 	in.v.slock.state = STATE_LEADER
